@@ -27,7 +27,7 @@ def F(name):
     return Function(name, real=True)
 
 
-VEC3_RX = re.compile(r"Eigen::Matrix<double, 3, 1")
+VEC3_RX = re.compile(r"Eigen::(Matrix|Array)<double, 3, 1")
 MAT3_RX = re.compile(r"Eigen::Matrix<double, 3, 3")
 
 
@@ -275,10 +275,14 @@ class Fold:
         if is_vec3(t):
             if len(args) == 3 and not any(isinstance(a, (Matrix, tuple)) for a in args):
                 return Matrix(args)
-            if len(args) == 1 and isinstance(args[0], Matrix):
-                return args[0]
+            if len(args) >= 1 and isinstance(args[0], Matrix) and args[0].shape == (3, 1):
+                return args[0]          # conversion from an Eigen expression (extra args are enable_if defaults)
             if len(args) == 0:
                 return vec_atoms("uninit@%s" % n["id"])
+        if is_mat3(t) and len(args) == 0:
+            return mat_atoms("uninit@%s" % n["id"])
+        if is_mat3(t) and len(args) >= 1 and isinstance(args[0], Matrix) and args[0].shape == (3, 3):
+            return args[0]
         if len(args) == 1:
             return args[0]
         if len(args) == 0:
@@ -341,7 +345,11 @@ class Fold:
         if k == "opcall":
             op = n["op"]
             if op in ("+", "-", "*", "/") and len(args) == 2:
-                return self.arith(op, args[0], args[1])
+                a0, a1 = args
+                if op in ("*", "/") and isinstance(a0, Matrix) and isinstance(a1, Matrix) and a0.shape == a1.shape \
+                        and a0.shape[1] == 1 and "Array" in (n.get("callee", "") + (n.get("type") or "")):
+                    return Matrix(a0.shape[0], 1, lambda i, j: a0[i] * a1[i] if op == "*" else a0[i] / a1[i])
+                return self.arith(op, a0, a1)
             if op == "-" and len(args) == 1:
                 return -args[0]
             if op in ("=", "+=", "-=", "*=", "/="):
@@ -388,6 +396,12 @@ class Fold:
                 return F(short)(a[0])
             if short in ("min", "max") and len(a) == 2:
                 return F(short)(a[0], a[1])
+        if obj is not None and isinstance(obj, Matrix) and short == "normalize" and not args:
+            on = unwrap(n["obj"])
+            nv = obj / sqrt(sum(x * x for x in obj))
+            if on.get("k") == "ref" and on.get("decl") in env:
+                env[on["decl"]] = nv
+            return nv
         if obj is not None and isinstance(obj, Matrix):
             v = self.matrix_method(short, obj, args, n)
             if v is not NotImplemented:
@@ -430,7 +444,9 @@ class Fold:
             return m / sqrt(sum(x * x for x in m))
         if short == "transpose":
             return m.T
-        if short in ("array", "matrix", "eval", "derived", "asDiagonal") and not args:
+        if short == "asDiagonal" and not args and m.shape[1] == 1:
+            return sp.diag(*list(m))
+        if short in ("array", "matrix", "eval", "derived") and not args:
             return m
         if short == "cwiseAbs":
             return m.applyfunc(sp.Abs)
@@ -634,7 +650,46 @@ class Fold:
                 out.add(("field", show(tgt)))
         return out
 
+    def literal_trip(self, s, env):
+        """(decl, start, stop) for `for (T k = c0; k < c1; ++k)` with literal bounds and k not written in the body"""
+        if s["k"] != "for" or not s.get("init") or not s.get("cond") or not s.get("inc"):
+            return None
+        init = s["init"]
+        if init.get("k") != "decl" or len(init["decls"]) != 1 or init["decls"][0].get("init") is None:
+            return None
+        d = init["decls"][0]
+        c0 = lit_value(d["init"])
+        cond = unwrap(s["cond"])
+        inc = unwrap(s["inc"])
+        if c0 is None or cond.get("k") != "binop" or cond["op"] not in ("<", "<=", "!="):
+            return None
+        l, r = unwrap(cond["lhs"]), unwrap(cond["rhs"])
+        while l.get("k") == "cast":
+            l = unwrap(l["sub"])
+        c1 = lit_value(r)
+        if l.get("decl") != d["decl"] or c1 is None or unwrap(r).get("k") not in ("int", "cast"):
+            return None
+        if not (inc.get("k") == "unop" and inc["op"] == "++" and unwrap(inc["sub"]).get("decl") == d["decl"]):
+            return None
+        if d["decl"] in self.assigned_in(s["body"]):
+            return None
+        stop = int(c1) + (1 if cond["op"] == "<=" else 0)
+        if c0.denominator != 1 or not (0 <= stop - int(c0) <= 8):
+            return None
+        return d["decl"], int(c0), stop
+
     def do_loop(self, s, env):
+        trip = self.literal_trip(s, env)
+        if trip is not None:
+            decl, a, b = trip
+            for i in range(a, b):
+                env[decl] = sp.Integer(i)
+                try:
+                    self.stmt(s["body"], env)
+                except Terminated:
+                    break
+            env.pop(decl, None)
+            return
         self.loop_id += 1
         lid = "L%d" % s.get("line", self.loop_id)
         k = s["k"]
@@ -751,6 +806,25 @@ class Fold:
 
 # ---------------------------------------------------------------------------- canonical forms
 
+def deep(e):
+    """canonicalise the arguments of uninterpreted functions bottom-up, then the expression itself"""
+    from sympy.core.function import AppliedUndef
+    if isinstance(e, Matrix):
+        return e.applyfunc(deep)
+    if isinstance(e, tuple):
+        return tuple(deep(x) if not isinstance(x, (str, type(None))) else x for x in e)
+    if not hasattr(e, "args") or not e.args:
+        return e
+    try:
+        new_args = [deep(a) for a in e.args]
+        e2 = e.func(*new_args)
+        if isinstance(e2, AppliedUndef):
+            return e2
+        return sp.cancel(sp.together(sp.expand(e2))) if e2.is_Add or e2.is_Mul or e2.is_Pow else e2
+    except Exception:
+        return e
+
+
 def canon(e):
     """canonical rational form (expand + cancel); matrices component-wise"""
     if isinstance(e, Matrix):
@@ -768,6 +842,8 @@ def is_zero(e):
         return all(is_zero(x) for x in e)
     try:
         r = sp.cancel(sp.together(sp.expand(e)))
+        if r != 0:
+            r = sp.cancel(sp.together(sp.expand(deep(e))))
         if r == 0:
             return True
         num = sp.numer(r)
